@@ -98,7 +98,8 @@ def sameSizes (numInputs numberOfPartitions : Nat) : Option (List Nat) := do
   let leftOver ← csub numInputs (nn * numberOfPartitions)
   pure ((List.range numberOfPartitions).map fun i => nn + (if i < leftOver then 1 else 0))
 
-def isPermOf (p : List Nat) (n : Nat) : Bool := p.length == n && (List.range n).all (fun i => p.count i == 1)
+/-- `p` lists every index below `n` exactly once -/
+def isPermOf (p : List Nat) (n : Nat) : Bool := p.isPerm (List.range n)
 
 /-- `createCVSameSize`: repartition, then `shuffle()` (`perm` = the permutation drawn), folds from the starts -/
 def createCVSameSize (set : LabeledData ι κ) (numberOfPartitions : Nat) (perm : List Nat) (batchSize : Nat) :
